@@ -111,16 +111,18 @@ inline Plan Gen(uint64_t seed)
          int cls;
          if ((t == T_MINI)||(t == T_MICRO)) cls = MSGCLS_COMMON;
          else if (t == T_TMPL) cls = wl.pct(60) ? MSGCLS_SHAPED : (int) wl.below(MSGCLS_COMMON);
-         else {static const int c[] = {MSGCLS_TINY, MSGCLS_SMALL, MSGCLS_SMALL, MSGCLS_EDGE, MSGCLS_NESTED, MSGCLS_SHAPED, MSGCLS_SMALL, MSGCLS_LARGE}; cls = c[wl.below(wl.oneIn(6) ? 8 : 7)];}
-         p.push_back("msg " + U(gs) + " " + I(cls));
+         else {static const int c[] = {MSGCLS_TINY, MSGCLS_SMALL, MSGCLS_SMALL, MSGCLS_EDGE, MSGCLS_NESTED, MSGCLS_SHAPED, MSGCLS_SMALL, MSGCLS_LARGE}; cls = c[wl.below(wl.oneIn(6) ? 8 : 7)]; if (wl.oneIn(12)) cls = MSGCLS_MANYFIELDS;}
+         std::string shp; if ((t == T_TMPL)&&(cls == MSGCLS_SHAPED)&&(wl.pct(70))) shp = " " + I((int)((seed >> 7) % 10) + (wl.oneIn(4) ? 1 : 0));   // templating runs keep coming back to one or two shapes: payload-only frames need a cached template
+         p.push_back("msg " + U(gs) + " " + I(cls) + shp);
       }
    }
    const int numMut = cfg.oneIn(12) ? 0 : (1 + (int) fl.below(3));   // a few runs are unmutated (must then deliver everything)
    for (int i=0; i<numMut; i++)
    {
       const uint32_t r = fl.below(100);
+      if ((t == T_WS)&&(r < 25)) {p.push_back("mut wsclose " + U(fl.below(64)) + " " + U(fl.below(4))); continue;}
            if ((r < 40)&&((t == T_BIN)||(t == T_MINI)||(t == T_MICRO))&&(enc == 0)&&(r >= 12)) p.push_back(fl.oneIn(3) ? ("mut swordt " + U(fl.below(8)) + " " + U(fl.below(10))) : ("mut sword " + U(fl.below(100000)) + " " + U(fl.below(20))));
-      else if ((r < 12)&&((t == T_BIN)||(t == T_TMPL)||(t == T_MINI))) p.push_back(std::string(fl.oneIn(2) ? "mut fhdr " : "mut ftail ") + U(fl.below(64)) + " " + U(fl.below(1000)));
+      else if (((r < 12)||((t == T_TMPL)&&(r < 32)))&&((t == T_BIN)||(t == T_TMPL)||(t == T_MINI))) /* templated frames have no walker of their own: consistent frame truncation is the structural rewrite for them */ p.push_back(std::string(fl.oneIn(2) ? "mut fhdr " : "mut ftail ") + U(fl.below(64)) + " " + U(fl.below(1000)));
       else if (r < 45) p.push_back("mut word " + U(fl.below(100000)) + " " + U(fl.below(20)));
       else if (r < 50) p.push_back("mut be16 " + U(fl.below(100000)) + " " + U(fl.below(16)));
       else if (r < 65) p.push_back("mut flip " + U(fl.below(1000000)) + " " + U(fl.below(8)));
@@ -128,6 +130,7 @@ inline Plan Gen(uint64_t seed)
       else if (r < 84) p.push_back("mut trunc " + U(fl.below(1000000)));
       else if (r < 90) p.push_back("mut ins " + U(fl.below(1000000)) + " " + U(1 + fl.below(40)) + " " + U(fl.u32()));
       else if (r < 96) p.push_back("mut splice " + U(fl.below(1000000)) + " " + U(fl.below(1000000)) + " " + U(1 + fl.below(64)));
+      else if ((t == T_WS)&&(fl.oneIn(2))) p.push_back("mut wsclose " + U(fl.below(64)) + " " + U(fl.below(4)));
       else             p.push_back("mut dup " + U(fl.below(1000000)) + " " + U(1 + fl.below(200)));
    }
    const int numIn = 1 + (int) wl.below(3);
@@ -371,6 +374,29 @@ inline void Mutate(std::string & s, const std::vector<std::string> & t, Stats & 
    else if (k == "trunc") {s.resize(ToU(t[2]) % len); st.inc("f.truncate");}
    else if ((k == "ins")&&(t.size() >= 5)) {Rng r(ToU(t[4]), "garbage"); std::string g; const uint32_t n = (uint32_t) ToU(t[3]) % 4096; for (uint32_t i=0; i<n; i++) g += (char) r.u32(); s.insert(ToU(t[2]) % (len+1), g); st.inc("f.garbage");}
    else if ((k == "splice")&&(t.size() >= 5)) {const uint32_t from = (uint32_t)(ToU(t[2]) % len), to = (uint32_t)(ToU(t[3]) % len); uint32_t n = (uint32_t) ToU(t[4]); if (from+n > len) n = len-from; if (to+n > len) n = len-to; const std::string tmp = s.substr(from, n); s.replace(to, n, tmp); st.inc("f.splice");}
+   else if ((k == "wsclose")&&(t.size() >= 4))
+   {
+      // WebSocket: a valid CLOSE (or PING) control frame is inserted at a frame boundary found by an independent walker of the RFC 6455 framing; the frames that followed it stay
+      const size_t hs = s.find("\r\n\r\n"); if (hs == std::string::npos) return;
+      std::vector<uint32_t> bounds; uint32_t o = (uint32_t) hs+4;
+      while(o+2 <= len)
+      {
+         bounds.push_back(o);
+         const uint8_t b1 = (uint8_t) s[o+1]; const bool masked = (b1 & 0x80) != 0; uint64_t pl = (b1 & 0x7f); uint32_t h = 2;
+         if (pl == 126) {if (o+4 > len) break; pl = ((uint64_t)(uint8_t) s[o+2] << 8) | (uint8_t) s[o+3]; h = 4;}
+         else if (pl == 127) {if (o+10 > len) break; pl = 0; for (int i=0; i<8; i++) pl = (pl << 8) | (uint8_t) s[o+2+i]; h = 10;}
+         if (masked) h += 4;
+         if ((uint64_t) o+h+pl > len) break;
+         o += h+(uint32_t) pl;
+      }
+      if (o == len) bounds.push_back(o);
+      if (bounds.empty()) return;
+      const uint32_t at = bounds[ToU(t[2]) % bounds.size()];
+      const bool clientStream = (at+1 < len) ? (((uint8_t) s[at+1] & 0x80) != 0) : true;   // client-to-server frames are masked
+      const uint8_t opcode = (ToU(t[3]) % 4 == 3) ? 0x9 : 0x8;                              // mostly CLOSE, sometimes PING
+      std::string f; f += (char)(0x80 | opcode); f += (char)(clientStream ? 0x80 : 0x00); if (clientStream) f += std::string("\x11\x22\x33\x44", 4);
+      s.insert(at, f); st.inc((opcode == 0x8) ? "f.ws_close_frame_inserted" : "f.ws_ping_frame_inserted");
+   }
    else if ((k == "dup")&&(t.size() >= 4)) {const uint32_t from = (uint32_t)(ToU(t[2]) % len); uint32_t n = (uint32_t) ToU(t[3]); if (from+n > len) n = len-from; s.insert(from, s.substr(from, n)); st.inc("f.splice_dup");}
 }
 
@@ -404,7 +430,7 @@ inline void Exec(const Plan & plan, RunResult & res)
    for (const std::string & line : plan)
    {
       std::vector<std::string> tk = Split(line); if (tk.empty()) continue;
-      if ((tk[0] == "msg")&&(tk.size() >= 3)) msgs.push_back(GenMessage(ToU(tk[1]), (int) ToI(tk[2])));
+      if ((tk[0] == "msg")&&(tk.size() >= 3)) msgs.push_back(GenMessage(ToU(tk[1]), (int) ToI(tk[2]), (tk.size() >= 4) ? (int) ToI(tk[3]) : -1));
       else if ((tk[0] == "text")&&(tk.size() >= 3))
       {
          Rng r(ToU(tk[1]), "text"); MessageRef m = GetMessageFromPool(PR_COMMAND_TEXT_STRINGS);
